@@ -48,6 +48,7 @@ type Result struct {
 	VTimeEnd rt.Duration
 	Threads  int
 	Counters map[string]int
+	Hung     bool // (never set here: the conformance flavour has no busy-loop watchdog)
 }
 
 // T is the test the bubbles run under (set by the conformance test).
